@@ -38,7 +38,7 @@ def c051(ctx):
     f = ctx.fn(R, TREE + "perform_compaction")
     if f:
         for pt in ctx.calls(R, f, TREE + r"perform_garbage_collection$"):
-            g = K.guarded_by_call(f, pt, r"lsmtk::tree::Compaction::top_level$", label="otherwise")
+            g = K.guarded_by_call(f, pt, r"lsmtk::tree::Compaction::top_level$", label="sw:1")
             ctx.check(R, f, "top-level-guard", g is not None, "GC is taken only on the true edge of compaction.top_level()",
                       "garbage collection can run for a compaction that is not top-level", pt=pt)
     g = ctx.fn(R, "lsmtk::tree::Compaction::top_level")
